@@ -131,7 +131,9 @@ def gen_fieldspec(rng, geom, allow_unlabelled=True):
     ndim = len(geom["n"])
     nv = rng.choice([1, 1, 2, 3, 3, 4])
     r = rng.random()
-    if nv == 1 or r < 0.5:
+    if nv == 1:
+        labels = [rng.choice(LABELS)] if (allow_unlabelled and r < 0.06) else None     # a scalar field may carry a label
+    elif r < 0.5:
         labels = None
     elif r < 0.93 or nv == ndim or not allow_unlabelled:
         labels = rng.sample(LABELS, nv)
@@ -173,23 +175,23 @@ def build_field(geom, fs, sub):
 
 def cases(rng, tier):
     q = tier == "quick"
-    for regime, cnt in (("exact", 420 if q else 5000), ("tol", 260 if q else 3000)):
+    for regime, cnt in (("exact", 700 if q else 5000), ("tol", 450 if q else 3000)):
         for _ in range(cnt):
             g = gen_geom(rng, tier, regime)
             yield dict(kind="rt", geom=g, fs=gen_fieldspec(rng, g), sub=rng.getrandbits(32),
                        name=rng.choice([None, None, "m", "field_1"]), unit=rng.choice([None, None, "T", ""]))
-    for _ in range(300 if q else 3500):
+    for _ in range(450 if q else 3500):
         regime = rng.choice(["exact", "tol", "tol"])
         g = gen_geom(rng, tier, regime, ndim=rng.choice([1, 2, 3]), force3=True)
         delta = rng.choice(["3/10", "1/20", "1/100", "1/100000000", "1/1000000000"])
         yield dict(kind="uneven", geom=g, fs=gen_fieldspec(rng, g, False), sub=rng.getrandbits(32), delta=delta,
                    erase=[k for k in GEOM_ATTRS if rng.random() < 0.5])
-    for _ in range(200 if q else 2500):
+    for _ in range(350 if q else 2500):
         yield dict(kind="hand", sub=rng.getrandbits(32))
     muts = ["no_nvdim", "nvdim_lt1", "nvdim_float", "nvdim_npint", "no_vdims_dim", "not_dataarray", "cell_len", "cell_scaled",
             "pmax_shift", "swap_corners", "dup_labels", "nvdim_mismatch", "scalar_with_vdims_dim", "transpose", "drop_coord",
             "dim_named_vdims", "export_badargs", "pmin_only_single"]
-    for i in range(360 if q else 4000):
+    for i in range(540 if q else 4000):
         g = gen_geom(rng, tier, "exact")
         yield dict(kind="bad", geom=g, fs=gen_fieldspec(rng, g, False), sub=rng.getrandbits(32), mut=muts[i % len(muts)])
 
@@ -386,7 +388,7 @@ def run_rt(case, obs, fail):
         mesh_matches(g, f, bnd, fail, "bare DataArray", units=("m",) * f.mesh.region.ndim, tol=1e-12)
         values_match(g, f, fail, "bare DataArray")
     obs["tags"] += [f"ndim:{f.mesh.region.ndim}", f"nvdim:{f.nvdim}", f"dtype:{f.array.dtype}", f"regime:{regime}",
-                    "single-cell-axis" if single else "n>=2", "labels:" + ("default" if fs["labels"] is None else "none" if fs["labels"] == [] else "custom"),
+                    "single-cell-axis" if single else "n>=2", "labels:" + ("default" if fs["labels"] is None else "none" if fs["labels"] == [] else "scalar-label" if fs["nvdim"] == 1 else "custom"),
                     "corners:" + str(f.mesh.region.pmin.dtype.kind), "renamed" if geom["dims"] else "default-dims"]
     if regime == "tol":
         obs["tags"].append(f"decade:{geom['scale_exp']}")
@@ -727,9 +729,12 @@ def nontrivial(case, obs):
 
 
 def known(case, text):
-    # D24: a vector field without component labels comes back with the default labels
-    if case["kind"] == "rt" and case["fs"]["labels"] == [] and text.startswith("labels changed: None ->"):
-        return "D24"
+    # D24: labels survive only for labelled vector fields and unlabelled scalar fields: a vector field without labels
+    # (vdims=[]) comes back with the default labels, a scalar field with a label comes back without
+    if case["kind"] == "rt" and text.startswith("labels changed:"):
+        fs = case["fs"]
+        if (fs["nvdim"] > 1 and fs["labels"] == []) or (fs["nvdim"] == 1 and fs["labels"]):
+            return "D24"
     # D25: coordinates with relative unevenness > 1e-3 are accepted when every spacing deviates from the mean by less than
     # np.allclose's threshold, which for spacings below ~1e-5 is its ABSOLUTE term 1e-8 (ratio < 1 = the test passes)
     if case["kind"] == "uneven" and text.startswith("unevenly spaced coordinates accepted"):
